@@ -385,7 +385,45 @@ func (k *c09Checker) viol(clause, desc string) {
 	k.c.Violation("C09/sw/"+clause, fmt.Sprintf("%s: case %s", desc, jsonStr(k.cs)), k.cs)
 }
 
+// c09Inputs: the one clause of the statement that also binds the aligner's other mode (ALIGN_ALGO_ATG,
+// which works on reversed sequences) and its error path: whatever Alignment() returns, the two input
+// sequences are left as they were.  Mode "atg-inputs"; residues may include '-' (rejected by the aligner).
+func c09Inputs(c *mc.Ctx, cs c09Case) {
+	c.Eval()
+	sq1 := align.NewSequence("s1", []byte(cs.S1), "")
+	sq2 := align.NewSequence("s2", []byte(cs.S2), "")
+	var err error
+	if pn, msg := mc.Guard(func() {
+		a := align.NewPwAligner(sq1, sq2, align.ALIGN_ALGO_ATG)
+		a.SetGapOpenScore(cs.Open)
+		a.SetGapExtendScore(cs.Extend)
+		a.SetScore(cs.Match, cs.Mismatch)
+		_, err = a.Alignment()
+	}); pn {
+		c.Violation("C09/atg/panic/"+mc.PanicSite(msg), msg+": case "+jsonStr(cs), cs)
+		return
+	}
+	if sq1.Sequence() != cs.S1 || sq2.Sequence() != cs.S2 || sq1.Name() != "s1" || sq2.Name() != "s2" {
+		clause := "inputs-modified"
+		if err != nil {
+			clause = "inputs-modified/after-error"
+		}
+		c.Violation("C09/atg/"+clause, fmt.Sprintf("inputs are now %q/%q (error: %v): case %s", sq1.Sequence(), sq2.Sequence(), err, jsonStr(cs)), cs)
+		return
+	}
+	if err != nil {
+		c.Outcome("atg-inputs:error")
+	} else {
+		c.Outcome("atg-inputs:ok")
+	}
+	c.Nontrivial("atg|" + cs.S1 + "|" + cs.S2)
+}
+
 func c09Check(c *mc.Ctx, o *c09Oracle, cs c09Case) {
+	if cs.Mode == "atg-inputs" {
+		c09Inputs(c, cs)
+		return
+	}
 	c.Eval()
 	k := &c09Checker{c: c, cs: cs, o: o}
 
@@ -737,6 +775,25 @@ func c09Tasks(tier string) []mc.Task {
 	}
 	// thorough leaves out the 5x5 corner (64% of the pairs) to stay inside the time limit
 	ts = c09PairTasks(ts, "blosum62", c09AlphaProt, protMax, func(s1, s2 string) bool { return len(s1)+len(s2) <= 9 }, matrix)
+
+	// (vi) inputs unmodified in the aligner's reversed mode and on its error path: all ordered pairs of
+	// length 1..3 over {A,C,G,-} (a '-' makes the alignment fail half-way)
+	for i := 0; i < 4; i++ {
+		first := "ACG-"[i]
+		ts = append(ts, mc.Task{Name: fmt.Sprintf("atg-inputs#%c", first), Run: func(c *mc.Ctx) {
+			forEachString("ACG-", 1, 3, func(a []byte) bool {
+				if a[0] != first {
+					return true
+				}
+				s1 := string(a)
+				forEachString("ACG-", 1, 3, func(b []byte) bool {
+					c09Check(c, nil, c09Case{S1: s1, S2: string(b), Mode: "atg-inputs", Match: 1, Mismatch: -1, Open: -2, Extend: -1})
+					return true
+				})
+				return !c.Expired()
+			})
+		}})
+	}
 	return ts
 }
 
@@ -759,7 +816,7 @@ func init() {
 			"affine convention of the code's documentation source (EMBOSS water): a gap of k symbols costs open + (k-1)*extend; consecutive gaps in different rows are two gaps",
 			"start/end are 0-based indices of the first and last aligned residue (cmd/sw.go prints them as 'Start,End'; aligner.go: 'Indices of alignment end')",
 			"a pair in which every residue is an IUPAC nucleotide code is scored with DNAfull (goalign reads ambiguous input as nucleotides), a pair of amino-acid codes holding at least one non-nucleotide letter with BLOSUM62; mixed pairs are not enumerated",
-			"score clauses and match/mismatch counts only on upper-case residues; ALIGN_ALGO_ATG (the reversed mode used by Phase) is not the local aligner of the statement and is covered by C16",
+			"score clauses and match/mismatch counts only on upper-case residues; for ALIGN_ALGO_ATG (the reversed mode used by Phase, otherwise C16's) only 'inputs unmodified, also when Alignment() fails' is checked, on all pairs of length 1..3 over {A,C,G,-}",
 			"match/mismatch counts are compared only when every identical pair scores > 0 and every different pair <= 0 under the scheme",
 			"Alignment() is called once per aligner",
 		},
